@@ -11,6 +11,8 @@
 // verif:assume C18: one candidate node with one reschedulable pod of symbolic cpu, one other initialized node of symbolic allocatable cpu, one pending pod of symbolic cpu, one NodePool, 2 instance types x {on-demand, spot} with symbolic availability; the InstanceType.allocatableOfferings / sync.Once memo fields are computed before freezing (they are caches of pure functions)
 // verif:pure ^sigs\.k8s\.io/karpenter/pkg/utils/resources\.(Fits|Cmp)$
 // verif:pure ^\(\*sigs\.k8s\.io/karpenter/pkg/scheduling\.Requirement\)\.(Has|Len|Operator)$
+// verif:nondeterministic the scheduler breaks ties between equally good domains, NodeClaims and instance types by Go map iteration order; a native run may take another admissible behaviour than the symbolic path
+// verif:assume sample comparison against the real build is restricted to the verdict for these harnesses: the real code breaks ties by randomised map iteration order, the engine iterates in insertion order; violations are always confirmed natively
 
 package disruption
 
